@@ -163,15 +163,17 @@ def header_injection(ctx, rng):
         return (S.sem_sheet(sh), sorted((k, sh.variables.getVariableValue(k)) for k in sh.variables.keys()), sorted(dict(sh.namespaces.items()).items()),
                 [r.type for r in sh.cssRules if r.type not in (r.UNKNOWN_RULE, r.COMMENT)])
     base = facts(parse(' '.join(HEADER_SHEET)))
-    for g in GARBAGE_STMT + ['@foo bar;', '@foo { a { b: c } }', '/*c*/', '@x (a) [b] "c";']:
+    for g in GARBAGE_STMT + ['@foo bar;', '@foo { a { b: c } }', '/*c*/', '@x (a) [b] "c";', '@namespace hp "http://other";', '@namespace "http://d2";',
+                             '@charset "ascii";', '@import "late2.css" tv;', '@variables { hv: 9px }']:
         alone = parse(g)
         # some of the "garbage" is a valid rule by itself ([y]{d:e}, @media {a{b:c}}): before the header rules it
         # rightly ends the header section, so there it is no damage in the property's sense
-        valid_rule = any(r.type not in (r.UNKNOWN_RULE, r.COMMENT) for r in alone.cssRules)
+        # (header rules are valid only in the header: further down they are misplaced, i.e. damage - see the k < 5 guard)
+        valid_rule = any(r.type not in (r.UNKNOWN_RULE, r.COMMENT, r.CHARSET_RULE, r.IMPORT_RULE, r.NAMESPACE_RULE, r.VARIABLES_RULE) for r in alone.cssRules)
         if valid_rule:
             continue
         for k in range(len(HEADER_SHEET) + 1):
-            if g.startswith(('@import', '@charset', '@namespace')) and k < 4:
+            if g.startswith(('@import', '@charset', '@namespace', '@variables')) and k < 5:
                 continue      # a well-formed header rule in a header position is no garbage
             if k == 0:
                 continue      # anything before @charset (a comment too) makes the @charset rule itself misplaced
